@@ -71,8 +71,9 @@ def facts_for(patch, bkey):
                 shutil.copytree(src, dst, ignore=shutil.ignore_patterns("target"))
             elif os.path.exists(src):
                 shutil.copy(src, dst)
-        r = subprocess.run(["patch", "-p1", "-s", "--no-backup-if-mismatch", "-i", patch], cwd=scratch, stdout=subprocess.PIPE,
-                           stderr=subprocess.STDOUT, text=True)
+        # only what the workspace build reads: patches may also touch docs / the TypeScript packages
+        r = subprocess.run(["git", "apply", "--include=crates/*", "--include=Cargo.toml", "--include=Cargo.lock", os.path.abspath(patch)],
+                           cwd=scratch, stdout=subprocess.PIPE, stderr=subprocess.STDOUT, text=True)
         if r.returncode != 0:
             shutil.rmtree(d, ignore_errors=True)
             return None, "patch-does-not-apply: " + r.stdout[-200:]
